@@ -29,21 +29,30 @@ try:
                 continue
             demos.append(rel)
     import re as _re
-    demo_dir = ""
+    hints = json.dumps(meta.get("demo", {}))
+    for extra in ("DEMO_DEST.txt",):
+        if os.path.exists(os.path.join(d, extra)):
+            hints += " " + open(os.path.join(d, extra)).read()
+    default_dir = ""
     m_ = _re.search(r"([\w./-]+/)[\w.-]+\.go", str(meta["demo"].get("path", "")))
     if m_:
-        demo_dir = m_.group(1)
+        default_dir = m_.group(1)
     placed = []
     def put_demos():
         for rel in demos:
-            # a demo file stored flat in the seed directory goes where meta.json says the demo lives
-            dest = rel if os.path.dirname(rel) else os.path.join(demo_dir, rel)
-            if not dest.endswith(".go"):
+            if not rel.endswith(".go"):
                 continue
+            if os.path.dirname(rel):
+                dest = rel
+            else:
+                # a demo file stored flat in the seed directory goes where meta.json / DEMO_DEST.txt says it lives
+                mm = _re.search(r"([\w./-]+/)" + _re.escape(rel), hints)
+                dest = os.path.join(mm.group(1) if mm else default_dir, rel)
+            dest = dest.lstrip("./")
             dst = os.path.join(wt, dest); os.makedirs(os.path.dirname(dst), exist_ok=True); shutil.copy(os.path.join(d, rel), dst)
             placed.append(dest)
     run = meta["demo"]["run"]
-    for old in ("/tmp/seed/wt-%s" % meta["property"], "<worktree>", "<your-worktree>"):
+    for old in ("/tmp/seed/wt-%s" % meta["property"], "<worktree>", "<your-worktree>", "<repo>", "<WORKTREE>", "$WT", "${WT}"):
         run = run.replace(old, wt)
     need_overlay = ".pb/overlay.json" in run or "-overlay" in run
     put_demos()
